@@ -18,73 +18,81 @@ theorem init_inv (max miss : Nat) : Inv (init max miss) := by
   intro id f
   simp [init, live, List.getD_eq_getElem?_getD]
 
-theorem step_inv (s : St) (op : Op) (h : Inv s) : Inv (step s op).1 := by
+theorem arrive_inv (s : St) (fr : Bytes) (port : Nat) (dl : Option Nat) (h : Inv s) : Inv (arriveStep s fr port dl).1 := by
   obtain ⟨hb, hl, hn⟩ := h
+  unfold arriveStep
+  cases ha : alloc s.pool (fr, port) with
+  | mk p' bid =>
+    have hb' : p'.slots.length ≤ p'.max := by
+      have := alloc_bounded s.pool (fr, port) hb; rw [ha] at this; exact this
+    cases bid with
+    | none =>
+      have := (alloc_none s.pool (fr, port) (by rw [ha])).1
+      rw [ha] at this; simp only at this; subst this
+      exact ⟨hb, hl, hn⟩
+    | some i =>
+      obtain ⟨f1, f2, f3⟩ := alloc_fresh s.pool (fr, port) i (by rw [ha])
+      rw [ha] at f2 f3; simp only at f2 f3
+      refine ⟨hb', ?_, ?_⟩
+      · intro id f
+        simp only [List.mem_append, List.mem_singleton, Prod.mk.injEq]
+        by_cases hid : id = i
+        · subst hid
+          rw [f2]
+          constructor
+          · rintro (hm | ⟨_, rfl⟩)
+            · have := (hl id f).mp hm; rw [f1] at this; cases this
+            · rfl
+          · intro he; cases he; exact .inr ⟨rfl, rfl⟩
+        · rw [f3 id hid, ← hl id f]
+          constructor
+          · rintro (hm | ⟨h1, _⟩)
+            · exact hm
+            · exact absurd h1 hid
+          · exact fun hm => .inl hm
+      · simp only [List.map_append, List.map_cons, List.map_nil]
+        refine List.nodup_append.mpr ⟨hn, by simp, ?_⟩
+        intro a ha' b hb''
+        simp only [List.mem_singleton] at hb''
+        subst hb''
+        intro hab; subst hab
+        obtain ⟨e, he, rfl⟩ := List.mem_map.mp ha'
+        have := (hl e.1 e.2).mp he
+        rw [f1] at this; cases this
+theorem use_inv (s : St) (id : Nat) (h : Inv s) : Inv (useStep s id).1 := by
+  obtain ⟨hb, hl, hn⟩ := h
+  unfold useStep
+  obtain ⟨u1, u2, u3⟩ := use_spec s.pool id
+  cases hu : use s.pool id with
+  | mk p' r =>
+    rw [hu] at u1 u2 u3; simp only at u1 u2 u3
+    have hb' : p'.slots.length ≤ p'.max := by
+      have := use_bounded s.pool id hb; rw [hu] at this; exact this
+    cases r with
+    | none =>
+      have := u2 u1.symm; subst this
+      exact ⟨hb, hl, hn⟩
+    | some f =>
+      obtain ⟨v1, v2⟩ := u3 f u1.symm
+      refine ⟨hb', ?_, ?_⟩
+      · intro j g
+        simp only [List.mem_filter, decide_eq_true_eq, ne_eq]
+        by_cases hj : j = id
+        · subst hj; rw [v1]; simp
+        · rw [v2 j hj, ← hl j g]; simp [hj]
+      · exact (List.filter_sublist.map _).nodup hn
+
+theorem step_inv (s : St) (op : Op) (h : Inv s) : Inv (step s op).1 := by
   cases op with
-  | setMiss n => exact ⟨hb, hl, hn⟩
-  | arrive fr port dl =>
-    show Inv (arriveStep s fr port dl).1
-    unfold arriveStep
-    cases ha : alloc s.pool (fr, port) with
-    | mk p' bid =>
-      have hb' : p'.slots.length ≤ p'.max := by
-        have := alloc_bounded s.pool (fr, port) hb; rw [ha] at this; exact this
-      cases bid with
-      | none =>
-        have := (alloc_none s.pool (fr, port) (by rw [ha])).1
-        rw [ha] at this; simp only at this; subst this
-        exact ⟨hb, hl, hn⟩
-      | some i =>
-        obtain ⟨f1, f2, f3⟩ := alloc_fresh s.pool (fr, port) i (by rw [ha])
-        rw [ha] at f2 f3; simp only at f2 f3
-        refine ⟨hb', ?_, ?_⟩
-        · intro id f
-          simp only [List.mem_append, List.mem_singleton, Prod.mk.injEq]
-          by_cases hid : id = i
-          · subst hid
-            rw [f2]
-            constructor
-            · rintro (hm | ⟨_, rfl⟩)
-              · have := (hl id f).mp hm; rw [f1] at this; cases this
-              · rfl
-            · intro he; cases he; exact .inr ⟨rfl, rfl⟩
-          · rw [f3 id hid, ← hl id f]
-            constructor
-            · rintro (hm | ⟨h1, _⟩)
-              · exact hm
-              · exact absurd h1 hid
-            · exact fun hm => .inl hm
-        · simp only [List.map_append, List.map_cons, List.map_nil]
-          refine List.nodup_append.mpr ⟨hn, by simp, ?_⟩
-          intro a ha' b hb''
-          simp only [List.mem_singleton] at hb''
-          subst hb''
-          intro hab; subst hab
-          obtain ⟨e, he, rfl⟩ := List.mem_map.mp ha'
-          have := (hl e.1 e.2).mp he
-          rw [f1] at this; cases this
-  | use id =>
-    show Inv (useStep s id).1
-    unfold useStep
-    obtain ⟨u1, u2, u3⟩ := use_spec s.pool id
-    cases hu : use s.pool id with
-    | mk p' r =>
-      rw [hu] at u1 u2 u3; simp only at u1 u2 u3
-      have hb' : p'.slots.length ≤ p'.max := by
-        have := use_bounded s.pool id hb; rw [hu] at this; exact this
-      cases r with
-      | none =>
-        have := u2 u1.symm; subst this
-        exact ⟨hb, hl, hn⟩
-      | some f =>
-        obtain ⟨v1, v2⟩ := u3 f u1.symm
-        refine ⟨hb', ?_, ?_⟩
-        · intro j g
-          simp only [List.mem_filter, decide_eq_true_eq, ne_eq]
-          by_cases hj : j = id
-          · subst hj; rw [v1]; simp
-          · rw [v2 j hj, ← hl j g]; simp [hj]
-        · exact (List.filter_sublist.map _).nodup hn
+  | setMiss n => exact h
+  | arrive fr port dl => exact arrive_inv s fr port dl h
+  | use id => exact use_inv s id h
+  | useCtl id dl =>
+    show Inv (useCtlStep s id dl).1
+    unfold useCtlStep
+    cases hlv : live s.pool id with
+    | none => exact h
+    | some f => exact use_inv _ id (arrive_inv s f.1 f.2 (some dl) h)
 
 /-- every reachable state satisfies the invariant -/
 theorem reachable_inv (s : St) (ops : List Op) (h : Inv s) : Inv (run s ops).1 := by
@@ -118,6 +126,20 @@ theorem bounded (max miss : Nat) (ops : List Op) :
         | mk p' r =>
           have := use_max s.pool id; rw [hu] at this
           cases r <;> exact this
+      | useCtl id dl =>
+        simp only [step, useCtlStep]
+        cases hlv : live s.pool id with
+        | none => rfl
+        | some f =>
+          simp only [useStep, arriveStep]
+          cases ha : alloc s.pool (f.1, f.2) with
+          | mk p1 bid =>
+            have h1 := alloc_max s.pool (f.1, f.2); rw [ha] at h1
+            simp only []
+            cases hu : use p1 id with
+            | mk p2 r =>
+              have h2 := use_max p1 id; rw [hu] at h2
+              cases r <;> simp only [] <;> rw [h2, h1]
   have := hm (init max miss) ops
   have h2 := stored_le (run (init max miss) ops).1.pool
   have h3 := hi.1
@@ -219,6 +241,61 @@ theorem packet_in_form (s : St) (h : Inv s) (fr : Bytes) (port : Nat) (dl : Opti
           · rename_i hle
             exact (List.take_of_length_le (by omega)).symm
 
+
+/-- **use_to_controller**: releasing an outstanding buffer through an action list that sends the packet to the
+controller again announces that very frame (its true length, its stored ingress port) in a packet-in whose buffer id —
+if it has one — is a DIFFERENT id that now identifies the frame; the old id is no longer outstanding.  Naming an id
+that is not outstanding does nothing. -/
+theorem use_to_controller (s : St) (h : Inv s) (id dl : Nat) :
+    (∀ f, (id, f) ∈ s.handed →
+      ∃ bid data, (step s (.useCtl id dl)).2 = .packetIn bid data f.1.length f.2 ∧ bid ≠ some id ∧
+        id ∉ (step s (.useCtl id dl)).1.handed.map (·.1) ∧
+        (∀ b, bid = some b → (b, f) ∈ (step s (.useCtl id dl)).1.handed)) ∧
+    (id ∉ s.handed.map (·.1) → step s (.useCtl id dl) = (s, .nothing)) := by
+  constructor
+  · intro f hf
+    have hlv := (h.2.1 id f).mp hf
+    have hi1 := arrive_inv s f.1 f.2 (some dl) h
+    obtain ⟨bid, data, ho, _, _⟩ := packet_in_form s h f.1 f.2 (some dl)
+    have hstep : step s (.useCtl id dl) = ((useStep (arriveStep s f.1 f.2 (some dl)).1 id).1, (arriveStep s f.1 f.2 (some dl)).2) := by
+      show useCtlStep s id dl = _
+      unfold useCtlStep; rw [hlv]
+    have ho' : (arriveStep s f.1 f.2 (some dl)).2 = .packetIn bid data f.1.length f.2 := ho
+    -- the old id stays outstanding across the re-buffering, so `useStep` releases it
+    have hkeep : (id, f) ∈ (arriveStep s f.1 f.2 (some dl)).1.handed := by
+      unfold arriveStep
+      cases ha : alloc s.pool (f.1, f.2) with
+      | mk p' b => cases b <;> simp [hf]
+    obtain ⟨hu1, _⟩ := use_once _ hi1 id
+    obtain ⟨_, hgone⟩ := hu1 f hkeep
+    refine ⟨bid, data, by rw [hstep]; exact ho', ?_, by rw [hstep]; exact hgone, ?_⟩
+    · -- the new id differs: it was not outstanding before
+      intro hb
+      have := (unique_live s h f.1 f.2 (some dl) id data f.1.length f.2 (by rw [← hb]; exact ho)).1
+      exact this (List.mem_map.mpr ⟨(id, f), hf, rfl⟩)
+    · intro b hb
+      have hnew := (unique_live s h f.1 f.2 (some dl) b data f.1.length f.2 (by rw [← hb]; exact ho)).2
+      have hne : b ≠ id := by
+        intro e
+        have := (unique_live s h f.1 f.2 (some dl) b data f.1.length f.2 (by rw [← hb]; exact ho)).1
+        exact this (List.mem_map.mpr ⟨(id, f), hf, e.symm ▸ rfl⟩)
+      rw [hstep]
+      show (b, f) ∈ (useStep (arriveStep s f.1 f.2 (some dl)).1 id).1.handed
+      have hmem : (b, f) ∈ (arriveStep s f.1 f.2 (some dl)).1.handed := hnew
+      unfold useStep
+      cases hu : use (arriveStep s f.1 f.2 (some dl)).1.pool id with
+      | mk p' r =>
+        cases r with
+        | none => exact hmem
+        | some g => simp only [List.mem_filter, decide_eq_true_eq, ne_eq]; exact ⟨hmem, hne⟩
+  · intro hnot
+    have hl : live s.pool id = none := by
+      cases hlv : live s.pool id with
+      | none => rfl
+      | some f => exact absurd (List.mem_map.mpr ⟨(id, f), (h.2.1 id f).mpr hlv, rfl⟩) hnot
+    show useCtlStep s id dl = _
+    unfold useCtlStep; rw [hl]
+
 /-! non-vacuity: a pool of 2 after three arrivals and a use — ids 1, 2, none; using 1 frees it and 1 is reused -/
 def demoOps : List Op :=
   [.arrive [1,2,3,4] 7 none, .arrive [5,6] 8 (some 1), .arrive [9] 9 none, .use 1, .use 1, .arrive [10,11,12] 3 none]
@@ -226,5 +303,7 @@ example : (run (init 2 2) demoOps).2 =
     [.packetIn (some 1) [1,2] 4 7, .packetIn (some 2) [5] 2 8, .packetIn none [9] 1 9,
      .emit [1,2,3,4] 7, .nothing, .packetIn (some 1) [10,11] 3 3] := by decide
 example : Inv (init 2 2) := init_inv 2 2
+example : (run (init 2 9) [.arrive [1,2,3] 7 none, .useCtl 1 2, .use 1, .use 2]).2 =
+    [.packetIn (some 1) [1,2,3] 3 7, .packetIn (some 2) [1,2] 3 7, .nothing, .emit [1,2,3] 7] := by decide
 
 end Pox.C18
